@@ -567,6 +567,126 @@ func runInstrAlias(p *core.Prog) *core.Result {
 	res.Count("names_flows", nFlows)
 	res.Assume("stash.createBinding/createLexBinding/deleteBinding are only applied to the global stash or to stashes selected by isVariable(): block and catch stashes share the Program's names map unconditionally")
 
+	// producer side: the instruction's `extensible` flag must describe the same scope whose
+	// bindings become its names map (copy-on-extensible is keyed to the owner of the names)
+	makeNames, err := p.GojaMethod("scope", "makeNamesMap")
+	if err != nil {
+		return res.Fail(err)
+	}
+	updEnter, err := p.GojaMethod("compiler", "updateEnterBlock")
+	if err != nil {
+		return res.Fail(err)
+	}
+	fDynamic, err := p.Field(core.GojaPath, "scope", "dynamic")
+	if err != nil {
+		return res.Fail(err)
+	}
+	fScope, err := p.Field(core.GojaPath, "compiler", "scope")
+	if err != nil {
+		return res.Fail(err)
+	}
+	nLits := 0
+	for _, f := range p.Funcs {
+		core.AllInstrs(f, func(in ssa.Instruction) {
+			al, ok := in.(*ssa.Alloc)
+			if !ok {
+				return
+			}
+			nt := core.NamedOf(al.Type())
+			if nt == nil || !types.Implements(types.NewPointer(nt), iface) {
+				return
+			}
+			var extScope, namesScope ssa.Value // the *scope values
+			var namesViaCompiler ssa.Value     // the *compiler whose current scope fills the names
+			// a composite literal is built in a temporary and copied into the variable: follow the copy
+			refs := append([]ssa.Instruction{}, core.Referrers(al)...)
+			for _, r := range core.Referrers(al) {
+				if ld, ok := r.(*ssa.UnOp); ok && ld.Op == token.MUL && ld.X == al {
+					for _, lr := range core.Referrers(ld) {
+						if st, ok := lr.(*ssa.Store); ok && st.Val == ld {
+							if dst, ok := st.Addr.(*ssa.Alloc); ok {
+								refs = append(refs, core.Referrers(dst)...)
+							}
+						}
+					}
+				}
+			}
+			for _, r := range refs {
+				fa, ok := r.(*ssa.FieldAddr)
+				if !ok || core.FieldOf(fa) == nil {
+					continue
+				}
+				switch core.FieldOf(fa).Name() {
+				case "extensible":
+					for _, rr := range core.Referrers(fa) {
+						if st, ok := rr.(*ssa.Store); ok && st.Addr == fa {
+							if ld, ok := st.Val.(*ssa.UnOp); ok && ld.Op == token.MUL {
+								if dfa, ok := ld.X.(*ssa.FieldAddr); ok && core.FieldOf(dfa) == fDynamic {
+									extScope = dfa.X
+								}
+							}
+						}
+					}
+				case "names":
+					for _, rr := range core.Referrers(fa) {
+						if st, ok := rr.(*ssa.Store); ok && st.Addr == fa {
+							if c, ok := st.Val.(*ssa.Call); ok && c.Call.StaticCallee() == makeNames {
+								namesScope = c.Call.Args[0]
+							}
+						}
+					}
+				case "enterBlock":
+					for _, rr := range core.Referrers(fa) {
+						if c, ok := rr.(*ssa.Call); ok && c.Call.StaticCallee() == updEnter {
+							namesViaCompiler = c.Call.Args[0]
+						}
+					}
+				}
+			}
+			if extScope == nil {
+				return
+			}
+			nLits++
+			key := core.FuncName(f) + ":" + nt.Obj().Name() + "-names-owner"
+			canon := func(v ssa.Value) string {
+				r := core.RootOf(v)
+				n := "?"
+				if r.Param != nil {
+					n = r.Param.Name()
+				} else if r.Free != nil {
+					n = r.Free.Name()
+				} else {
+					n = p.SourceName(core.Origin(v))
+				}
+				return n + r.Path
+			}
+			switch {
+			case namesScope != nil:
+				if canon(namesScope) == canon(extScope) {
+					res.OK(key, p.Pos(al.Pos()), "names and extensible both come from scope "+canon(extScope))
+				} else {
+					res.Bad(key, p.Pos(al.Pos()), fmt.Sprintf("the instruction's names map is built from scope %s but its extensible flag from scope %s: when only the former can gain bindings at run time (direct eval in a parameter initialiser) the VM shares the Program's map instead of copying it", canon(namesScope), canon(extScope)))
+				}
+			case namesViaCompiler != nil:
+				// extensible must be <compiler>.scope.dynamic for the same compiler
+				okc := false
+				if ld, ok := core.Origin(extScope).(*ssa.UnOp); ok && ld.Op == token.MUL {
+					if sfa, ok := ld.X.(*ssa.FieldAddr); ok && core.FieldOf(sfa) == fScope && canon(sfa.X) == canon(namesViaCompiler) {
+						okc = true
+					}
+				}
+				if okc {
+					res.OK(key, p.Pos(al.Pos()), "names (updateEnterBlock) and extensible both come from the compiler's current scope")
+				} else {
+					res.Bad(key, p.Pos(al.Pos()), "names come from the compiler's current scope (updateEnterBlock) but extensible from a different scope")
+				}
+			default:
+				res.Inform(key, p.Pos(al.Pos()), "no names map assigned in this function")
+			}
+		})
+	}
+	res.Count("instruction_literals_with_extensible", nLits)
+
 	// regexp literals
 	newRx, err := p.GojaMethod("newRegexp", "exec")
 	if err != nil {
